@@ -355,7 +355,7 @@ def main(tier):
             runs = [("scenario1_small", 40), ("scenario1", 25), ("three_nets", 40)] if tier == "quick" else [("scenario1_small", 60), ("scenario1", 40), ("three_nets", 60)] * 4
             for sc, n in runs:
                 run_one(drv, rng, V, stats, sc, n, rng.choice([42, 1, 7, 1234]) + (seed() if tier != "quick" else 0))
-            run_generated(rng, V, stats, 60 if tier == "quick" else 1500, 4)
+            run_generated(rng, V, stats, 250 if tier == "quick" else 3000, 4)
             # coordinator level: what agents are SENT under dynamic addresses (start views in the current labelling, also for
             # a player that joins while the re-labelling reset completes; tables after every completed reset)
             if info.get("tables"):
